@@ -171,7 +171,7 @@ package client
 //
 //@ func (*Conn) AcquireMessage(ctx context.Context) (m *pool.Message)
 //@   trusted
-//@   ensures m != nil
+//@   ensures m != nil && fresh(m) && len(m.msg.Options) == 0 && (cap(m.bufferUnmarshal) == 0 || fresh(m.bufferUnmarshal)) && (cap(m.msg.Options) == 0 || fresh(m.msg.Options))
 //
 //@ func (*Conn) Sequence() (s uint64)
 //@   trusted
@@ -183,7 +183,7 @@ package client
 //@   trusted
 //
 //@ func (*Conn) Process(cm *coapNet.ControlMessage, datagram []byte) (err error)
-//@   requires cc != nil
+//@   requires cc != nil && len(datagram) < 1099511627776
 //@   modifies anything
 //@   opaque-calls pure
 //@   ensures [every-message-counts] called(UnmarshalWithDecoder) && callRes(UnmarshalWithDecoder, 0, 1) == nil && called(requestMonitor) && callRes(requestMonitor, 0, 1) == nil && !callRes(requestMonitor, 0, 0) ==> called(Notify)
